@@ -1,7 +1,15 @@
 import IpcHub.Model.PathMatch
+import IpcHub.Model.GoUnicode
 import IpcHub.Gen.AuthFacts
 namespace IpcHub.PathMatch
-/-- the matcher configuration of the current source tree: ASCII character functions (the
-    harness only generates ASCII) and the regenerated `pathScanner` fact -/
+/-- the matcher configuration of the current source tree with ASCII character functions (what the
+    C11 model builds on: its harness only sends ASCII) and the regenerated `pathScanner` fact -/
 def genCfg : Cfg := { lower := asciiLower, isSpace := asciiSpace, pathTrims := IpcHub.Gen.pathScannerTrims }
+
+/-- the matcher configuration of the current source tree with Go's own character functions
+    (`unicode.ToLower`, `unicode.IsSpace`: Model/GoUnicode.lean) and the regenerated `pathScanner`
+    fact — what the C16 driver runs -/
+def goCfg : Cfg :=
+  { lower := IpcHub.GoUnicode.toLower, isSpace := IpcHub.GoUnicode.isSpace,
+    pathTrims := IpcHub.Gen.pathScannerTrims }
 end IpcHub.PathMatch
